@@ -81,6 +81,9 @@ NEST_CTX = [
 ]
 
 
+QUICK_BLOCK = ("para-next", "quote-table-next", "list-table-next", "table-next", "quote-empty-last", "list-empty-item",
+               "quote-lazy", "list-next", "list-blank-next", "fence-open", "html-next", "ref-title-open", "quote-list", "bullet")
+
 URLSLOT = ("link-dest", "ref-next", "ref-label-next", "ref-title-open")
 
 
@@ -97,6 +100,8 @@ def ctx_scaffolds(tier: str):
     out = []
     nfree = 2
     for name, prefix in BLOCK_CTX:
+        if tier == "quick" and name not in QUICK_BLOCK:
+            continue
         cfgs = [JS]
         if name == "para-next":
             cfgs = [JS] + (leave_one_out_block() if tier == "thorough" else
@@ -104,7 +109,7 @@ def ctx_scaffolds(tier: str):
         elif tier == "thorough":
             cfgs = [JS, CM]
         for suffix, sname in (("\n", "nl"), ("", "eof")):
-            if tier == "quick" and sname == "nl" and name not in ("para-next", "quote", "bullet"):
+            if tier == "quick" and sname == "nl":
                 continue
             out.append({"name": f"{name}-{sname}", "scaffold": [prefix, H("a"), H("b")] + ([suffix] if suffix else []),
                         "cfgs": cfgs, "mode": "block", "spec": _spec_for(name), "weight": 4})
@@ -118,6 +123,8 @@ def ctx_scaffolds(tier: str):
         out.append({"name": name, "scaffold": sc, "cfgs": cfgs, "mode": "inline_render", "spec": _spec_for(name),
                     "weight": 4 if tier == "quick" else 30, "shard": tier == "thorough"})
     for name, sc, mode in NEST_CTX:
+        if tier == "quick" and name in ("nest-emph", "nest-image"):
+            continue
         out.append({"name": name, "scaffold": sc, "cfgs": [JS], "mode": mode, "spec": {"a": dict(NOCR)},
                     "weight": 2, "maxnest": 4})
     return out
